@@ -15,12 +15,15 @@ def setup():
     from mchap import jitutils as J
 
 
+QS = [1e6]      # units per nat of the recorded log-likelihoods (coarser for runs whose values would leave 32 bits)
+
+
 def q(v):
     if v is None or (isinstance(v, float) and math.isnan(v)):
         return NANQ
     if v == -math.inf:
         return -2000000000
-    return int(round(float(v) * 1e6))
+    return int(max(-1999999999, min(1999999999, round(float(v) * QS[0]))))
 
 
 # ---------------------------------------------------------------- replay
@@ -90,6 +93,17 @@ def assemble_trace(task):
     na = [int(x) for x in rnd.choice([2, 2, 3], size=N)] if task.get("multi", True) else [2] * N
     reads = rational_reads(rnd, task.get("n_reads", 5), N, na)
     counts = rnd.randint(1, 4, size=len(reads)).astype(np.int64) if task.get("counts", True) else None
+    if task.get("huge_counts"):
+        # a few distinct reads seen tens of thousands of times (deep amplicon data): log-likelihoods of -1e5 .. -1e6 nats
+        counts = np.array([40000, 33000] + [1 + i % 3 for i in range(len(reads) - 2)], dtype=np.int64)
+        for j in range(N):      # the two deep reads disagree at every SNV (no SNV is fixed as homozygous)
+            reads[0, j, : na[j]] = 0.25 / (na[j] - 1)
+            reads[0, j, 0] = 0.75
+            reads[1, j, : na[j]] = 0.25 / (na[j] - 1)
+            reads[1, j, 1] = 0.75
+        QS[0] = 1e3
+    else:
+        QS[0] = 1e6
     init, mx = task["init"], task["max"]
     events = []
 
@@ -150,6 +164,7 @@ def assemble_trace(task):
     finally:
         arraymap.get, arraymap.set, M.new_log_likelihood_cache = o_get, o_set, o_new
         mutation.base_step, structural.interval_step, M.chain_swap_step = o_base, o_int, o_swap
+        QS[0] = 1e6
     return {"header": {"L": P * N, "B": int(max(na)), "init": init, "max": mx, "kind": "assemble"}, "events": events}
 
 
